@@ -20,6 +20,8 @@ def gen_plant_case(rng, idx, kind=None, n=None):
     if rng.random() < 0.3:
         plants.relabel(case["spec"], style=str(rng.choice(["per-kind", "per-category"])))
     plants.mark_int_ratings(rng, case["spec"])
+    if case["spec"].get("electric") and "order" not in case["spec"] and rng.random() < 0.5:      # components listed in any order
+        case["spec"]["order"] = [int(i) for i in rng.permutation(len(case["spec"]["electric"]))]
     return case
 
 
